@@ -12,1167 +12,1375 @@ Definition show_fres (r : fres) : string :=
   end.
 Definition check (rs : list rune) : string := digest (show_fres (format_res rs)).
 Definition full (rs : list rune) : string := show_fres (format_res rs).
-Eval vm_compute in ("<<<M1698>>>" ++ check (runes_of_ascii "packet rootA {
-    char[0] len @calculatedFrom(""abc""),
-    u8 uint8x @lengthOf(roots) `a\`,
-    int @calculatedFrom(""a\""b""),
-    match msg_type as i8i8 {
-        ""\" ++ [233]%N ++ runes_of_ascii """ : Header,
-        1 : zchar,
-        [""\n""] : string_,
-        ""\n"" : i8i8,
-        0123456789 : Logon,
-        [
-            00, 007, ""1"", ""it's"", ""// no comment"",
-            0, ""a\\"", 007
-        ] : BodyLength,
-    },
-    match rootA as chars {
-        7 : Header,
-    },
-    A Foo `tab	here`,
-    float64 charz @calculatedFrom(""\" ++ [233]%N ++ runes_of_ascii """),
-    f32 tag,
-    @lengthOf(x)
-    // `tick` ""quote"" 'q'
-    @leftPad(	'\x00' )
-    crc {
-        repeat i16 options1 `tab	here`,
-        match options1 as charz {
-            ""CRC32"" : u,
-            0 : charz,
-            ""x y"" : roots,
-            [""CRC32"", """ ++ [233]%N ++ runes_of_ascii "t" ++ [233]%N ++ runes_of_ascii """] : i8i8,
-        },
-        repeat falsey {
-            match chars as asx {
-                ""abc"" : stringy,
-            },
-            match lengthOf as charz {
-                0123456789 : o,
-                ""// no comment"" : chars,
-                ["""", 7, 255, 00, 42] : float,
-            },
-            match a1 as lengthOf {
-                [65535, 1] : int,
-                ""{,}"" : calculatedFrom,
-                ""`tick`"" : float,
-                // @lengthOf(
-                ""// no comment"" : Packet,
-                [""\" ++ [233]%N ++ runes_of_ascii """, ""// no comment"", 3, """ ++ [128512]%N ++ runes_of_ascii """, 255] : int,
-                //	t
-                // trailing space 
-            },
-        },
-    },
-}
+Eval vm_compute in ("<<<M1963>>>" ++ check (runes_of_ascii "// packet A { u8 x, }
+    root 
+packet	rootA{ repeat
+char[]
+    int 
+	    /// triple
+      `it's`	,  string
 
-options {
-    msg_type = true
-    lengthOf = zchar[1];
-}
-
-root packet packetx {
-    i8 tag `line1
-    line2`,
+    asx @calculatedFrom( 
+""a\""b"" 
+) 	 //x
+	`tab	here`
+,
+falsey 
+``	,
+	repeat  string metadata ``
+    //
+// " ++ [27880; 37322]%N ++ runes_of_ascii "
+    	, match x 
     // @lengthOf(
-}")).
-Eval vm_compute in ("<<<M1806>>>" ++ check (runes_of_ascii "  packet
-	x  {
-    }	options
+  as
 
-    /// triple
-	// c
+    chars
 
-  {  Packet=  string 
-Packet=
-// a // b
-	' '  zchar =  false ;	matchKey
+{
+007
+	:
+    lengthOf	""// no comment""
+:
+o,
+[
+""" ++ [233]%N ++ runes_of_ascii "t" ++ [233]%N ++ runes_of_ascii """] 	 //	t
+  :
 
-=
+len
 
-    false }packet f32a 
-    // packet A { u8 x, }
-    	// " ++ [128512]%N ++ runes_of_ascii " emoji
-    {
-	int64 options1 @calculatedFrom(
+, [0123456789	,007
+
+,	""" ++ [233]%N ++ runes_of_ascii "t" ++ [233]%N ++ runes_of_ascii """, 	 // trailing space 
+42
+	,
+
+    0123456789
+	,
 
 ""packet""
-)
-`// not a comment`
-	,Z9_
-{
-	charz{
-	match
-BodyLength  as trueish
-
-{
-	""\" ++ [233]%N ++ runes_of_ascii """ 
-:
-	charz ,	65535
-	:  roots  ,[
-
-4294967296  //x
-, 
-""a\""b""
-    // @lengthOf(
-	  ,  ""abc""]
-
-:f32a	,
-""\" ++ [233]%N ++ runes_of_ascii """  :
-//x
-  // " ++ [128512]%N ++ runes_of_ascii " emoji
-	int
-// packet A { u8 x, }
-		""x y"" 	 //
-:
-	u8x
-    },
-	repeat
-
-    int8 u, repeat _x
-	{ 
-msg_type`100% of %d` 
-,  metadata
-	`crlf
-line`	,	f32
-roots
-,
-char[] f32a
-	@lengthOf( Pad),  // c
-  }
-,	}
-,
-
-},match
-	T as calculatedFrom
-	{ 
-[
-    0 ,
-
-    """ ++ [128512]%N ++ runes_of_ascii """ ] : 	 // @lengthOf(
-
-Pad // packet A { u8 x, }
-
-	[
-""""
-
     , 
-""x y"", """ ++ [233]%N ++ runes_of_ascii "t" ++ [233]%N ++ runes_of_ascii """	,
+00 ] : x
+	,  },
 
-""a\""b""
-    ,
-    4294967296
+match pack
+	as
 
-    ,
+int
 
-""" ++ [28040; 24687]%N ++ runes_of_ascii """ ]
-    :
-o [ 42  ]  //
-    :float
+{	[// a // b
+1,""a\""b"" 
+,	""a\""b""
+    ]: x ,
 
-    , }
-
-,
-    match
-
-    zchar
-    as  _x { ""`tick`""
-	    // " ++ [27880; 37322]%N ++ runes_of_ascii "
-:
-packetx
-    ,	}
-    , 
-	// 50% %s
-    repeat 
-    // c
-  // `tick` ""quote"" 'q'
-	As
-// " ++ [27880; 37322]%N ++ runes_of_ascii "
-
-{
-	int	@lengthOf(	msg_type	)
-,i64
-    roots `line1
-line2` 
-// `tick` ""quote"" 'q'
-    ,	// c
-  repeat  u16  Packet `" ++ [233]%N ++ runes_of_ascii "`, f64 
-charz ,	}
-	, int32
-i8i8
-`say ""hi""` ,
-
-    }
-
-")).
-Eval vm_compute in ("<<<M1458>>>" ++ check (runes_of_ascii "root packet packetx {
-    /// triple
-    @tag(007)
-    int16 int ``,
-    @calculatedFrom(""x y"")
-    repeat string a1 `it's`,
-    @lengthOf(Header)
-    repeat char[1] string_ ``,
-    uint64 falsey @lengthOf(i8i8),
-    @lengthOf(u)
-    match roots as u128 {
-        [
-            ""`tick`"", 4294967296, """", 65535, """ ++ [28040; 24687]%N ++ runes_of_ascii """,
-            ""CRC32"", ""a	b"", ""a	b""
-        ] : options1,
-        [007, ""abc"", 65535] : A,
-        7 : f32a,
-        ""abc"" : i8i8,
-        ""it's"" : o,
-        [
-            ""{,}"", 42, 65535, """", ""a\""b"",
-            4294967296, 0
-        ] : T,
-        /// triple
-        //x
     },
-    @tag(7)
-    char o @calculatedFrom(""// no comment""),
-    repeat f32 float `line1
-    line2`,
-    @lengthOf(f32a)
-    match rootA as matchKey {
-        007 : x,
-        """ ++ [233]%N ++ runes_of_ascii "t" ++ [233]%N ++ runes_of_ascii """ : charz,
-        [""x y"", 4294967296, 255, 00] : len,
-    },
-    @tag(0123456789)
-    repeat trueish i64_,
-}
+} root packet	int
+	{ char[ 10  ] len
 
-packet lengthOf {
-}// a // b
+    @lengthOf(string_)
 
-packet len {
-    @calculatedFrom(""a	b"")
-    _x roots `a\`,
-}
-//	t")).
-Eval vm_compute in ("<<<M1662>>>" ++ check (runes_of_ascii "
-options
-    { LittleEndian	=  false
-;	FixedStringPadChar	= ' '
-;	}
-    packet
-Fill 
-{ InFlags6
-
-    {
-repeat u64 
-count, 
-} ,
-
-    char[8]price
-, 
-repeat 
-char[
-
-    2
-
-] lastPx
-
-,char[] count ,} packet
-Quote
-{
-
-char[] Qty
-	, 
-int32 
-sym
     ,
-zchar[9 ]
-Flags ,  int8  tag7
-    ,
-
-char[
-    7
-]
-count
-, }
-    packet
-
-    Cancel
-
-{  string	Acct, 
-@rightPad ( '\x00')
-	char[2
-
-    ]Note
-
-,	zchar[	5]
-Side2
-	, } packet
-	Trade
-
-{	repeat
-Quote ,Fill
-	,
-
-repeat
-i64 Side2	,
-    uint16
-
-    Tail
-	,zchar[ 7  ]OrderId,	}root packet
-Party 
-{
-repeat
-InLastpx79
-    { 
-char[
-12] Px ,int8 Tail,}  , f32  count  ,repeat
-    u8
-
-    Note
-
-,
-Trade
-
-,
-f64 venue
-,@rightPad(
-'\x00'
-
-    )char[
-11] 
-tag7,
-u16
-
-Px  ,  u32  Side2 @lengthOf(Body
-), 
-match
-	Px
-    as Body {[ 48 , 
-188 ]
-
-:Fill
-
-, 190	: Trade
-	, 160: Quote ,
-    85
-
-    : 
-Cancel,
-    },
-	}")).
-Eval vm_compute in ("<<<M194>>>" ++ check (runes_of_ascii "
-root
-    packet u8x{
-@calculatedFrom(	""it's""  )
-    zchar[
-    007 ]  Logon, @rightPad( ' ' ) @calculatedFrom(""\n"" ) @lengthOf( Header) repeat
-zchar[0 ] options1	,
-// " ++ [27880; 37322]%N ++ runes_of_ascii "
-// `tick` ""quote"" 'q'
-@lengthOf(i8i8
-    ) @lengthOf(
-repeatCount
-) zchar[
-65535  ] packetx
-`doc`	,
-    uint32 Foo	@calculatedFrom(
-""1"" ) , matchKey ,  int16  Header	,  } options {
-    x= 7 } MetaData
-// " ++ [27880; 37322]%N ++ runes_of_ascii "
-// `tick` ""quote"" 'q'
-string_
-    { trueish trueish  `it's`
-, char[4294967296 ]
-    x //x
-,
-    // a // b
-    string u
-    `100% of %d`, f32
-stringy
-    `// not a comment` ,
-    // `tick` ""quote"" 'q'
-    string
-    BodyLength	,// a // b
-}  options
-    { // @lengthOf(
-Logon = 10 roots = uint8 ;
-float=
-    ""a\\""  ; Header	=""CRC32"" ;
-    }")).
-Eval vm_compute in ("<<<M1827>>>" ++ check (runes_of_ascii "options
-	{
-
-    u128  = ""// no comment"" }
-
-root
-packet
-    Z9_
-    {
-
-repeat char[]i8i8	,
-float64 
-MetaDataX,
-repeat
-
-rootA	{msg_type @calculatedFrom(
-
-""\" ++ [233]%N ++ runes_of_ascii """
-) ,
-
-    match
-
-float
-	as  _x// " ++ [128512]%N ++ runes_of_ascii " emoji
-    	{
-""a\""b""
-
-: u
-    ,[
-""a	b""  // " ++ [27880; 37322]%N ++ runes_of_ascii "
-    , ""CRC32"" 	 // a // b
-, 
-10/// triple
-, 007
-	, 
-255 ,
-
-    ""x y""
-, 42 	 //	t
-
-,3
-
-]	:
-
-    msg_type
-, [
-	""1""  //	t
-	,
-	""\n""	,
-    4294967296
-
-    , ""abc"" ,  ""// no comment"" ,	//x
-""\n"", 1]//	t
-
-  :
-int ,
-[ 
-10 ]:
-As
-	,
-	[
-
-    0
-]
-
-:zchar
-,
-
-7	// " ++ [27880; 37322]%N ++ runes_of_ascii "
-  	:
-	A
-    , } ,}
-	,char[]
-	zchar@lengthOf( tag )
-
-,}
-options
-
-    {
-body
-
-= ""1"" 
-trueish
-    =
-	' '  //x
-    ; }
-")).
-Eval vm_compute in ("<<<M59>>>" ++ check (runes_of_ascii "packet int{/// triple
-lengthOf , // " ++ [27880; 37322]%N ++ runes_of_ascii "
-match x_y_z
-as
-    trueish{  [
-""it's""
-, 0123456789 ] : i64_ , } , @tag( 255)
-@leftPad // " ++ [27880; 37322]%N ++ runes_of_ascii "
-(// packet A { u8 x, }
-'0' )
-options1@calculatedFrom(
-""1""
-    )
-`
-` , // @lengthOf(
-@leftPad ( '\x00') // packet A { u8 x, }
-len @lengthOf( rootA
-    ) , i64_ packetx ,
-    @tag( 42
-)	int32/// triple
-trueish ,
-i8 options1 `two words`,  @leftPad( '0'
-) char[
-1
-] calculatedFrom `tab	here`
-,	@lengthOf(o )
-    @tag(
-007 // 50% %s
-) u8
-_x	@calculatedFrom(
-    ""`tick`"") , repeatCount @lengthOf( MetaDataX)
-    , /// triple
-}
-")).
-Eval vm_compute in ("<<<M128>>>" ++ check (runes_of_ascii "packet asx {u32
-asx,char[ 0123456789	] crc
-@calculatedFrom( ""1""
-    ) `{ , }`  ,  @tag(
-    42
-)
-@tag( 7 )
-    msg_type{asx @calculatedFrom( ""a	b""
-    )`it's` , },
-@calculatedFrom(	""\n"" ) // " ++ [128512]%N ++ runes_of_ascii " emoji
-char[ 3
-] float
-    ,zchar[	4294967296
-]
-zchar	,@lengthOf( roots)
-i16
-int @lengthOf(
-i64_ )
-, i16 pack
-    @lengthOf(
-    u128 )
-    , @lengthOf(
-    // 50% %s
-    msg_type ) char[] A , repeat	char[]tag`a\` ,
-}
-//	t
-// @lengthOf(
-packet
-pack
-    { u	@lengthOf(
-    a1
-    )	`say ""hi""`, }
-//	t
-")).
-Eval vm_compute in ("<<<M1844>>>" ++ check (runes_of_ascii "packet 	 // a // b
-	u8x{// trailing space 
-    repeat roots
-{ zchar[42
-	] 
-	    // 50% %s
-	// a // b
-  u 
-@lengthOf( i64_)	`line1
-line2`
-
-, f64
-    Packet ``
-	, zchar[
-
-4294967296
-    ]
-	msg_type ,}
-
-, }root
-	packet
-rootA  {
 	@calculatedFrom(
-""// no comment""
-    )
-@calculatedFrom(	// " ++ [128512]%N ++ runes_of_ascii " emoji
-    """ ++ [233]%N ++ runes_of_ascii "t" ++ [233]%N ++ runes_of_ascii """ )match
-	body
 
-    as  Foo
-	    /// triple
-
-{	10  :
-    a1
-}
-,
-@tag(
-42 )  @calculatedFrom(
-""1""
-
-) repeat 
-int64 float `u8 x,`	,
-}
-
-")).
-Eval vm_compute in ("<<<M1384>>>" ++ check (runes_of_ascii "options {
-    LittleEndian = false;
-    StringPrefixLenType = u16;
-    FixedStringPadFromLeft = true;
-    FixedStringPadChar = '0';
-}
-packet Fill {
-}
-root packet Order {
-    repeat Fill,
-    char[] clOrdID,
-    @rightPad('\x00') char[4] lastPx,
-    char[] OrderId,
-    int8 tag7,
-    u8 f1,
-    u16 count @lengthOf(Body),
-    match f1 as Body {
-        [159, 49] : Fill,
-    },
-    u16 Tail @calculatedFrom(""CRC32""),
-}
-")).
-Eval vm_compute in ("<<<M1362>>>" ++ check (runes_of_ascii "options
-
-    {
-	LittleEndian
-= true
-	;StringPrefixLenType 
-=u16  ;
-	ArrayPrefixLenType=
-
-u16
-
-    ; 
-FixedStringPadFromLeft
-= true
-;
-FixedStringPadChar
-
-    =  '0' ;
-
-    }	packet	Leg { u16 Flags
+""1"" )  repeat 
+    //	t
+packetx  { char[ 42
+]Foo
 , 
-u8
-price , 
-} packet
+a1
 
-    Quote
-{
+    A ,repeat
 
-    uint16
-
-count
-	,
-    InNote89
-
-{	repeat  Leg, }
-
-,} root
-packet
-Ack {  char[
-	3
-
-    ] price , u64 sym, 
-zchar[
-1 
+    zchar[
+	1  ]i8i8  `a\` ,zchar[4294967296 
 ]
 
-Tail, }
-")).
-Eval vm_compute in ("<<<M267>>>" ++ check (runes_of_ascii "// " ++ [128512]%N ++ runes_of_ascii " emoji
-packet  Header {metadata
-, T @calculatedFrom( ""// no comment""
-)
-    `100% of %d` , // " ++ [128512]%N ++ runes_of_ascii " emoji
-options1
-i64_ , } options
-{
-    /// triple
-    len =	' ' int = /// triple
-i64 tag
-=0123456789 calculatedFrom
-= // packet A { u8 x, }
-""\" ++ [233]%N ++ runes_of_ascii """
-} options
-{As  = false matchKey =""\n"" ; }options {
-pack
-= ""a\\"" ; float = """ ++ [28040; 24687]%N ++ runes_of_ascii """ A =
-7 i8i8 =	42; }
-")).
-Eval vm_compute in ("<<<M1373>>>" ++ check (runes_of_ascii "options {
-    StringPrefixLenType = u16;
-    ArrayPrefixLenType = u64;
-}
-packet Order {
-    float64 Ref,
-    repeat i32 lastPx,
-}
-packet Fill {
-    zchar[9] Ref,
-    zchar[4] Px,
-    Order,
-    int8 count,
-}
-packet Cancel {
-    i16 Side2,
-    Order,
-}
-root packet Party {
-    float64 Px,
-    zchar[1] clOrdID,
-}
-")).
-Eval vm_compute in ("<<<M1795>>>" ++ check (runes_of_ascii "options 
-    // 50% %s
+x_y_z 
+@lengthOf(
+T	)
 
-{ //
-	u128
-    =
+    `` ,  }  , char
+	chars 
+,repeat zchar[
+255
 
-    zchar[ 10
-]; body  = '0'Z9_
-	=	float64 ;
+]
 
-    i8i8
-	=  ""a\\""
-;  } packet  T
-{
-char[
-
-42]
-asx 
-@calculatedFrom( /// triple
-	  ""CRC32""
-)
-	,
-
-}
-// trailing space 
-
-// " ++ [128512]%N ++ runes_of_ascii " emoji
-  root packet
-
-x
-
-{Pad	u128 `100% of %d`
-, }
-")).
-Eval vm_compute in ("<<<M1676>>>" ++ check (runes_of_ascii "packet
-options1
-
-{ @calculatedFrom(	""""
-) @rightPad ('\x00')
-
-    char[
-007 ]
-	msg_type
+tag `tab	here`
 ,
+@calculatedFrom(""it's""	//	t
 
-    i64 Header
+) 	 // packet A { u8 x, }
+	char[00
+	]
 
-`" ++ [233]%N ++ runes_of_ascii "`
-,
-//	t
-@calculatedFrom(""packet""
-	) @calculatedFrom( ""`tick`""
-)	@calculatedFrom(
-	""a	b""
-
-    ) i32
-
-options1
-	@lengthOf(
-	Pad
-    ),
-
-}
-")).
-Eval vm_compute in ("<<<M53>>>" ++ check (runes_of_ascii "  root packet _x{ uint32 //	t
-trueish @calculatedFrom(""1"" ) `tab	here`
-    , } packet Header
-    {repeat
-    u64 stringy `u8 x,` ,float32
-    msg_type
-, repeat
-x_y_z crc `two words`
-, zchar[ // c
-007 ] Packet ,
-    string asx `say ""hi""`
-,}
-")).
-Eval vm_compute in ("<<<M414>>>" ++ check (runes_of_ascii "packet
-    asx { @calculatedFrom(
-""""  i8 @tag( 255 )repeat
-// packet A { u8 x, }
-// trailing space 
-int16 u8x
-,
-@tag(
-    //
-    007 )
-    @tag( 0
-    /// triple
-    ) @tag( 1) u
-    @lengthOf( T ),
-// `tick` ""quote"" 'q'
-//x
-} // " ++ [128512]%N ++ runes_of_ascii " emoji")).
-Eval vm_compute in ("<<<M458>>>" ++ check (runes_of_ascii "packet
-    asx { @calculatedFrom(
-""""  ) @tag( 255 )repeat
-// packet A { u8 x, }
-// trailing space 
-int16 u8x
-,
-@tag(
-    //
-    ) 007
-    @tag( 0
-    /// triple
-    ) @tag( 1) u
-    @lengthOf( T ),
-// `tick` ""quote"" 'q'
-//x
-} // " ++ [128512]%N ++ runes_of_ascii " emoji")).
-Eval vm_compute in ("<<<M511>>>" ++ check (runes_of_ascii "packet
-    asx { @calculatedFrom(
-""""  ) @tag( 255 )repeat
-// packet A { u8 x, }
-// trailing space 
-int16 u8x
-,
-@tag(
-    //
-    007 )
-    @tag( 0
-    /// triple
-    ) @tag( 1) u
-    @lengthOf( T ,
-// `tick` ""quote"" 'q'
-//x
-} // " ++ [128512]%N ++ runes_of_ascii " emoji")).
-Eval vm_compute in ("<<<M529>>>" ++ check (runes_of_ascii "packet
-    asx { @calculatedFrom(
-""""  ) @tag( 255 )repeat
-// packet A { u8 x, }
-// trailing space 
-int16 u8x
-,
-@tag(
-    //
-    007 )
-    @tag( 0
-    /// triple
-    ) @tag( 1) u
-    @lengthOf( T ),
-// `tick` ""quote"" 'q'
-//x
-}")).
-Eval vm_compute in ("<<<M1946>>>" ++ check (runes_of_ascii "// top
-packet B {
-    u8 a,
-    // c5
-}// c6
-
-root packet P {
-    u8 K,// c13a
-    // c13b
-    match K as Body {
-        // c18
-        1 : B,
-        // c22
-    },
-    u16 L @lengthOf(Body),// c30a
-    // c30b
-}")).
-Eval vm_compute in ("<<<M202>>>" ++ check (runes_of_ascii "packet
-leftPad
-//
-// " ++ [27880; 37322]%N ++ runes_of_ascii "
-{ string_
-u , match
-u as crc { [ ""a\\""
-    ]: f32a
-// 50% %s
-//
-,  [ 7 ]: chars,0 : //	t
-packetx// @lengthOf(
-,  } ,
-    @calculatedFrom(""// no comment"" )u64 tag
-, }")).
-Eval vm_compute in ("<<<M490>>>" ++ check (runes_of_ascii "packet
-    asx { @calculatedFrom(
-""""  ) @tag( 255 )repeat
-// packet A { u8 x, }
-// trailing space 
-int16 u8x
-,
-@tag(
-    //
-    007 )
-    @tag( 0
-    /// triple
-    ) @tag(")).
-Eval vm_compute in ("<<<M1345>>>" ++ check (runes_of_ascii "  packet u128
-{
-	u8 a
-
-,}
-    root packet
-Msg	{
-    u8 k  ,
-    u24
-	{
-
-u8 Hi
-	, 
-u16
-
-    Lo
-	,  }
-    ,repeat i24{u32 q , } , u128  ,u16
-	float32x
-	, string
-	s,	}
-")).
-Eval vm_compute in ("<<<M700>>>" ++ check (runes_of_ascii "MetaData u
-    { } MetaData o
-{ float uint8x
-`100% of %d` ,# repeatCount u8x, string_ leftPad
-, i32
-    Foo , int64 x `two words` , calculatedFrom
-stringy `a\` ,
-}
-")).
-Eval vm_compute in ("<<<M614>>>" ++ check (runes_of_ascii "MetaData u
-    { } MetaData o
-{ float uint8x
-`100% of %d` ,repeatCount u8x[ string_ leftPad
-, i32
-    Foo , int64 x `two words` , calculatedFrom
-stringy `a\` ,
-}
-")).
-Eval vm_compute in ("<<<M679>>>" ++ check (runes_of_ascii "MetaData u
-    { } MetaData o
-{ float uint8x
-`100% of %d` ,repeatCount u8x, string_ leftPad
-, i32
-    Foo , int64 x `two words` , calculatedFrom
-stringy i32 ,
-}
-")).
-Eval vm_compute in ("<<<M1714>>>" ++ check (runes_of_ascii "MetaData crc {
-    packetx repeatCount,
-    f32a As `line1
-        line2`,
-    crc len `line1
-        line2`,
-    zchar[0123456789] uint8x,
-    zchar[0] As,
-}")).
-Eval vm_compute in ("<<<M669>>>" ++ check (runes_of_ascii "MetaData u
-    { } MetaData o
-{ float uint8x
-`100% of %d` ,repeatCount u8x, string_ leftPad
-, i32
-    Foo , int64 x `two words` , :
-stringy `a\` ,
-}
-")).
-Eval vm_compute in ("<<<M113>>>" ++ check (runes_of_ascii "
-root packet trueish { } options
-{ Foo= 0123456789;
-    } root packet
-    A// @lengthOf(
-{ repeat
-i8i8 body// @lengthOf(
-`it's` ,} // 50% %s")).
-Eval vm_compute in ("<<<M42>>>" ++ check (runes_of_ascii "
-root packet  x  {
-@rightPad
-( '\x00' ) repeat
-    uint32 crc , } options{
-Packet
-    // @lengthOf(
-    =char[] }	MetaData o
-    {}
-")).
-Eval vm_compute in ("<<<M935>>>" ++ check (runes_of_ascii "packet A {
-    u16 len @lengthOf(body) `a
-    b
-  c`,
-    u32 crc @calculatedFrom(""CRC32"") `a
-    b
-  c`,
-    string body,
-}")).
-Eval vm_compute in ("<<<M1553>>>" ++ check (runes_of_ascii "packet
-    A  {  match k
-
-    as
-
-n {
-[
-
-    1
-
-    ,
-	22 
-,
-
-007 ,	4
-
-    , 5
-	,
-66 ]
-
-:
-    B 2 
-:C} ,}
-
-")).
-Eval vm_compute in ("<<<M1217>>>" ++ check (runes_of_ascii "options { } options { MetaDataX = char // c
-; } MetaData Pad { i8 metadata , string stringy , int8 As `{ , }` , }")).
-Eval vm_compute in ("<<<M1901>>>" ++ check (runes_of_ascii "
-packet
-A
-	{  match
-k as  n
-
-{[ 
-1  , 
-22
-	,
-""c c"",4
-	,
-5,""f"" ,
-	7,  8
-    ,
-""i""
-, 10
-,
-11  ] :  B	2:
-C}	,
-}")).
-Eval vm_compute in ("<<<M1435>>>" ++ check (runes_of_ascii "
-packet 
-f32a
-
-    {@tag(
-007 )
-// " ++ [27880; 37322]%N ++ runes_of_ascii "
-  i8i8  Logon,
-
-    } 
-options 
-{}
-    packet stringy
-
-{} //
-")).
-Eval vm_compute in ("<<<M887>>>" ++ check (runes_of_ascii "packet A {
-  match k as n {
-    [""a"", ""bb"", 007, ""d"", ""e"", 66, ""g"", ""h"", 9, ""j""] : B
-    2 : C
-  },
-}")).
-Eval vm_compute in ("<<<M873>>>" ++ check (runes_of_ascii "packet A {
-  match k as n {
-    [""a"", ""bb"", 007, ""d"", ""e"", 66, ""g"", ""h"", 9] : B,
-    2 : C
-  },
-}")).
-Eval vm_compute in ("<<<M526>>>" ++ check (runes_of_ascii "packet
-    asx { @calculatedFrom(
-""""  ) @tag( 255 )repeat
-// packet A { u8 x, }
-// trailing ")).
-Eval vm_compute in ("<<<M876>>>" ++ check (runes_of_ascii "packet A {
-  match k as n {
-    [1, 22, 007, 4, 5, 66, 7, 8, 9, 10] : B,
-    2 : C
-  },
-}")).
-Eval vm_compute in ("<<<M26>>>" ++ check (runes_of_ascii "root// trailing space 
-packet uint8x
-{  string stringy
-    @lengthOf(matchKey
-)	, }")).
-Eval vm_compute in ("<<<M814>>>" ++ check (runes_of_ascii "packet A {
-  match k as n {
-    [""a"", ""bb"", ""c c"", ""d"", ""e""] : B
-    2 : C
-  },
-}")).
-Eval vm_compute in ("<<<M815>>>" ++ check (runes_of_ascii "packet A {
-  match k as n {
-    [1, ""bb"", 007, ""d"", 5] : B,
-    2 : C
-  },
-}")).
-Eval vm_compute in ("<<<M1570>>>" ++ check (runes_of_ascii "MetaData u128 {
-    matchKey i64_,
-    BodyLength T,
-    msg_type body,
-}")).
-Eval vm_compute in ("<<<M976>>>" ++ check (runes_of_ascii "packet A {
-    B b `%%d%!`,
-    B `%%d%!`,
-    repeat B bs `%%d%!`,
-}")).
-Eval vm_compute in ("<<<M1922>>>" ++ check (runes_of_ascii "packet u {
-    Foo @lengthOf(crc) `{ , }`,
-    @tag(007)
-    o,
-}")).
-Eval vm_compute in ("<<<M1507>>>" ++ check (runes_of_ascii "
-MetaData
-    M  { u8
+    BodyLength
+    //x
+    // " ++ [128512]%N ++ runes_of_ascii " emoji
+    ``
+, 
+        //	t
+  /// triple
+    }
+    packet asx
+{	zchar[ 255  ]
 
     x
+@lengthOf(
 
-`a
-b` 
-, T  t  `a
-b`  , }
-")).
-Eval vm_compute in ("<<<M1461>>>" ++ check (runes_of_ascii "packet int {
-    Logon @calculatedFrom(""1""),
-}// 50% %s")).
-Eval vm_compute in ("<<<M1906>>>" ++ check (runes_of_ascii "  packet A { u8
+    int
+
+    ) ,
+}
+    MetaData 
+repeatCount {
+a1
+    Logon	,
+
+    u8x
+As,char[ 
+	    /// triple
+      00 ]// c
+  metadata
+`line1
+line2` ,	i32
+	Logon
+
+    `it's`
+,  string
+falsey,
+	}  packet  Z9_
+// trailing space 
+	// " ++ [27880; 37322]%N ++ runes_of_ascii "
+    { options1
+	{
+	u32 
+MetaDataX	, char[ 1 ] 
+	// " ++ [128512]%N ++ runes_of_ascii " emoji
+  //x
+
 x
-    ,// c
-
-	u8
-
-y
+@lengthOf( Header
+)
     ,
+	repeatCount 
+
+/// triple
+	x_y_z
+,
+
+}
+,	float
+,
+	repeat
+    packetx 
+Z9_ , @rightPad  ( 
+      // trailing space 
+  // trailing space 
+  ' '
+) asx
+	{
+    string 
+asx	@lengthOf(  uint8x	// c
+)
+	,
+packetx
+
+    ,  char[  007] metadata	, }  ,  } ")).
+Eval vm_compute in ("<<<M125>>>" ++ check (runes_of_ascii "
+packet
+    o // @lengthOf(
+{
+    @leftPad(
+    ) @tag( 00
+)  int16 int
+    @lengthOf(
+Header )
+`
+`	,
+@leftPad (
+'\x00')
+    char[00// c
+]	body@lengthOf( // packet A { u8 x, }
+a1 ) `" ++ [28040; 24687; 31867; 22411]%N ++ runes_of_ascii "` , } packet roots
+{ Logon  `crlf
+line` ,}packet // `tick` ""quote"" 'q'
+_x
+// `tick` ""quote"" 'q'
+//
+{ zchar[4294967296
+] Header`
+`	,chars @calculatedFrom( ""1"" ) // packet A { u8 x, }
+, match As
+// 50% %s
+//
+as
+// @lengthOf(
+//x
+A {""`tick`""// " ++ [27880; 37322]%N ++ runes_of_ascii "
+:u }
+    , repeat string
+    zchar ,
+    repeat packetx { match
+pack
+    //x
+    as
+lengthOf
+    { 3: calculatedFrom
+    , 3
+    // packet A { u8 x, }
+    : metadata ,
+    ""abc"" // " ++ [128512]%N ++ runes_of_ascii " emoji
+:
+    falsey,4294967296 :
+len ,
+}  , match Packet as repeatCount
+{ [""a\\"", 1 , ""a\\"" ,0
+, ""packet"" , ""a	b"" ] : f32a
+    , 4294967296
+    :
+tag  1 :
+packetx  , [ ""\n"", 42 ,
+    4294967296
+    ,
+""a	b""
+    , 10
+,
+255 ,	007 ]
+:
+chars
+,  [ ""1"" ,""// no comment""
+,0 , // 50% %s
+1 ,""`tick`"" , 3 , 42 , ""\" ++ [233]%N ++ runes_of_ascii """ ]
+: BodyLength
+    }, // trailing space 
+},string u8x `" ++ [28040; 24687; 31867; 22411]%N ++ runes_of_ascii "`  ,
+    repeat
+    f32a{
+char[7 ] // " ++ [128512]%N ++ runes_of_ascii " emoji
+x_y_z `
+` // trailing space 
+,
+} , }
+MetaData Packet { chars u , char[]u8x
+,
+// 50% %s
+// trailing space 
+x_y_z
+    /// triple
+    asx
+    `" ++ [28040; 24687; 31867; 22411]%N ++ runes_of_ascii "`,
+int8 Header `{ , }` , zchar[
+4294967296 ]
+    rootA `u8 x,`
+/// triple
+//
+,
+char[] calculatedFrom, }
+")).
+Eval vm_compute in ("<<<M1895>>>" ++ check (runes_of_ascii "
+root packet 
+packetx
+
+{char[]
+
+    leftPad
+	@lengthOf( 
+chars ),
+@lengthOf( 
+u)	repeat
+
+    uint8
+float 
+,
+
+A  ,zchar[ 4294967296 ]string_@lengthOf(  float
+    )
+    ,  match
+    rootA
+    as
+As
+{  // " ++ [128512]%N ++ runes_of_ascii " emoji
+      [
+""it's"" ,
+
+255 ,  // 50% %s
+	  0123456789  ,""" ++ [233]%N ++ runes_of_ascii "t" ++ [233]%N ++ runes_of_ascii """ 
+,	""{,}"" ,  ""abc""
+
+    ,
+""" ++ [233]%N ++ runes_of_ascii "t" ++ [233]%N ++ runes_of_ascii """] : int
+,
+4294967296
+: tag// trailing space 
+, }
+
+,@calculatedFrom(
+	""\" ++ [233]%N ++ runes_of_ascii """
+// packet A { u8 x, }
+	) @lengthOf(
+	tag
+    ) match leftPad as
+	u 
+{ [
+
+    ""it's""
+
+]
+:string_	,} ,
+@calculatedFrom(  ""\n""
+
+    // 50% %s
+	  // packet A { u8 x, }
+  ) 
+@lengthOf( calculatedFrom
+
+    )
+	    // 50% %s
+@lengthOf(
+    // trailing space 
+
+  // trailing space 
+MetaDataX) charz
+, @tag(
+65535 
+)match	f32a as 
+rootA {
+
+[
+
+    """ ++ [128512]%N ++ runes_of_ascii """ ] 
+:
+falsey 0:  // packet A { u8 x, }
+    	MetaDataX
+    ,  // @lengthOf(
+	}
+,char[
+
+    007 ]
+    i8i8
+    @calculatedFrom(// c
+""" ++ [233]%N ++ runes_of_ascii "t" ++ [233]%N ++ runes_of_ascii """ 
+  // trailing space 
+		// " ++ [128512]%N ++ runes_of_ascii " emoji
+	) `
+`, }
+
+options
+	{
+trueish 
+
+    /// triple
+	= // c
+	true	;	rootA
+=
+""\" ++ [233]%N ++ runes_of_ascii """
+	;
+    trueish  = 
+false
+	; }	// a // b
+ 
+")).
+Eval vm_compute in ("<<<M224>>>" ++ check (runes_of_ascii "packet
+leftPad {
+@lengthOf( len
+)  Pad u
+`" ++ [28040; 24687; 31867; 22411]%N ++ runes_of_ascii "` , } root
+packet As{ uint16
+    calculatedFrom ,
+    // c
+    }packet
+Header { }
+packet
+int{@rightPad ( // " ++ [27880; 37322]%N ++ runes_of_ascii "
+'0'	)repeat
+Foo// @lengthOf(
+stringy ,
+len
+    // " ++ [27880; 37322]%N ++ runes_of_ascii "
+    { float64
+i64_ `it's` , } ,repeat
+MetaDataX//x
+{
+rootA
+`crlf
+line`	, match string_ as roots {""it's""
+    // @lengthOf(
+    :x 7
+    :
+    A //x
+, // @lengthOf(
+}
+,
+char
+u128 `" ++ [233]%N ++ runes_of_ascii "` ,}  , @lengthOf( MetaDataX ) @leftPad ('0' ) //
+@leftPad ( ) char[] body , @calculatedFrom(
+""""
+) calculatedFrom
+    trueish ,
+    Packet ,repeat As{
+    char[ 65535] Header , i8 /// triple
+Packet ,
+} ,  char[
+    00]	packetx
+@lengthOf(
+u8x) `u8 x,` // " ++ [27880; 37322]%N ++ runes_of_ascii "
+,
+    // " ++ [128512]%N ++ runes_of_ascii " emoji
+    @calculatedFrom( ""`tick`"" ) @lengthOf(
+A
+    )
+    match
+body
+as //
+i64_
+{// a // b
+[ 1 ] :
+// trailing space 
+// `tick` ""quote"" 'q'
+f32a, },	i8 _x @calculatedFrom(	""// no comment"" )
+// trailing space 
+// a // b
+``, }
+// a // b
+")).
+Eval vm_compute in ("<<<M1196>>>" ++ check (runes_of_ascii "// top
+options
+    // c0
+{
+    // c1
+}
+    // c2
+MetaData
+    // c3
+packetx
+    // c4
+{
+    // c5
+int
+    // c6
+falsey
+    // c7
+`two words`
+    // c8
+,
+    // c9
+int32
+    // c10
+trueish
+    // c11
+,
+    // c12
+char[]
+    // c13
+u8x
+    // c14
+,
+    // c15
+A
+    // c16
+x
+    // c17
+`// not a comment`
+    // c18
+,
+    // c19
+}
+    // c20
+root
+    // c21
+packet
+    // c22
+i8i8
+    // c23
+{
+    // c24
+@lengthOf(
+    // c25
+repeatCount
+    // c26
+)
+    // c27
+@tag(
+    // c28
+1
+    // c29
+)
+    // c30
+@calculatedFrom(
+    // c31
+""a	b""
+    // c32
+)
+    // c33
+string
+    // c34
+stringy
+    // c35
+@calculatedFrom(
+    // c36
+""\n""
+    // c37
+)
+    // c38
+`line1
+line2`
+    // c39
+,
+    // c40
+pack
+    // c41
+`100% of %d`
+    // c42
+,
+    // c43
+}
+    // c44
+")).
+Eval vm_compute in ("<<<M1390>>>" ++ check (runes_of_ascii "
+options{LittleEndian =true	;
+StringPrefixLenType =
+
+    u32
+	;
+
+    ArrayPrefixLenType= u8;}
+	packet
+    Heartbeat	{ 
+string
+
+    msgKind,
+}
+    packet
+
+Logon 
+{
+repeat  Heartbeat 
+,  repeat
+
+    string  Px ,
+
+uint8
+
+Tail 
+,	char[]
+
+    f1
+, }packet
+	Cancel
+	{
+	zchar[ 4  ]
+OrderId
+
+,
+    Logon  ,
+repeat
+
+    InMsgkind98{  repeat
+    u8
+
+tag7,
+	repeat
+	InFlags69
+{
+	char[]
+
+Note	,char[]
+lastPx
+
+    ,	char[ 11
+]
+	Ref ,
+Logon,}
+    ,repeat  Heartbeat , } , 
+zchar[
+
+    7	]
+
+Px 
+,
+	u32
+seqNo 
+,	}
+
+root
+
+    packet Reject {
+	i16
+tag7
+    ,
+	char[3
+
+] Qty
+
+    ,
+	InRef42 {  u8
+pad0
+
+,
+},
+uint32 f1 ,zchar[
+
+7]
+OrderId  ,zchar[ 
+8
+]x	,} ")).
+Eval vm_compute in ("<<<M1338>>>" ++ check (runes_of_ascii "// top
+packet
+    // c0
+Logon {
+    // c2
+string // c3
+user
+    // c4
+,
+    // c5
+} root packet // c8a
+  // c8b
+Frame // c9a
+  // c9b
+{
+    // c10
+u8
+    // c11
+K // c12a
+  // c12b
+,
+    // c13
+match K // c15a
+  // c15b
+as
+    // c16
+Body {
+    // c18
+1 // c19
+: // c20a
+  // c20b
+Logon // c21
+, // c22
+2
+    // c23
+:
+    // c24
+Logout // c25
+, // c26a
+  // c26b
+} , // c28a
+  // c28b
+Tail , } packet // c32
+Logout // c33a
+  // c33b
+{ // c34
+u16 // c35
+reason // c36a
+  // c36b
+,
+    // c37
+} // c38a
+  // c38b
+packet Tail
+    // c40
+{ // c41a
+  // c41b
+u32 crc // c43
+, } // c45
+")).
+Eval vm_compute in ("<<<M1883>>>" ++ check (runes_of_ascii "  root
+
+    packet  float { repeat  calculatedFrom
+metadata	`say ""hi""`,
+Pad
+	{ 	 // " ++ [27880; 37322]%N ++ runes_of_ascii "
+	repeat	string
+	o`" ++ [233]%N ++ runes_of_ascii "`
+
+    ,
+	match string_//	t
+
+as
+u8x
+{ 	 // trailing space 
+
+[ ""abc""
+
+] :
+    pack 
+,	[ ""a	b""	]
+
+:	// `tick` ""quote"" 'q'
+  len
+    00
+	:
+x
+[
+	""packet""
+]	: 
+uint8x, [ 
+""abc""
+
+    ,""""
+	//	t
+	,""{,}""	, 
+0123456789 ,""`tick`"",""" ++ [28040; 24687]%N ++ runes_of_ascii """
+	]:	//
+
+  Foo
+	, }, f64 
+a1
+// c
+`doc`,
+	}
+
+    ,	char[]
+
+    Pad
+`{ , }` ,	} root
+packet
+
+    a1
+{repeat
+i64_  stringy 
+, 	 // 50% %s
+  	}
+	MetaData
+
+Packet{
+	int32
+
+tag
+,}
+")).
+Eval vm_compute in ("<<<M239>>>" ++ check (runes_of_ascii "MetaData pack  {float32 Header
+    `two words` //
+, rootA charz `" ++ [233]%N ++ runes_of_ascii "`
+, //
+int32 falsey`doc`, }packet matchKey { i64_ { float64 tag
+@lengthOf( msg_type) , u8x f32a,
+    Pad
+{
+char[ 10 ]
+// trailing space 
+// @lengthOf(
+f32a `// not a comment`,},
+int {repeat
+    packetx { char[] T @calculatedFrom( ""it's"" )
+, } , } , } , char[ 255
+] trueish@lengthOf(calculatedFrom// " ++ [128512]%N ++ runes_of_ascii " emoji
+) //	t
+, repeat rootA string_ ,
+}
+packet x_y_z	{  @lengthOf( i64_
+    )BodyLength `" ++ [233]%N ++ runes_of_ascii "`
+// @lengthOf(
+//	t
+, }")).
+Eval vm_compute in ("<<<M1420>>>" ++ check (runes_of_ascii "packet body { @leftPad  // " ++ [27880; 37322]%N ++ runes_of_ascii "
+
+  ('0'	)
+
+stringy 
+roots 
+,	@rightPad ('0'	)
+asx  @lengthOf( _x
+	)
+
+,
+    //	t
+	}
+
+    packet chars
+	{
+
+@tag( 255 )  i32 
+msg_type  , 
+o
+	{ pack
+@calculatedFrom(  ""abc""	) 
+, match rootA
+    as 
+tag	{ 
+[
+
+0123456789 
+	    // @lengthOf(
+	,	7
+
+    ] :len
+    ,} , u32 BodyLength
+
+@calculatedFrom( ""packet""
+
+)  `say ""hi""` ,
+lengthOf
+    u	,
+},@rightPad  (' '
+)  repeat
+f32a,  }
+
+MetaData  msg_type
+    {
+
+}")).
+Eval vm_compute in ("<<<M1522>>>" ++ check (runes_of_ascii "// top
+options {
+    // c1
+}// c2
+
+MetaData packetx {
+    // c5
+    int falsey `two words`,// c9
+    int32 trueish,// c12
+    char[] u8x,// c15
+    A x `// not a comment`,// c19
+}// c20
+
+root packet i8i8 {
+    // c24
+    @lengthOf(repeatCount)
+    // c27
+    @tag(1)
+    // c30
+    @calculatedFrom(""a	b"")
+    // c33
+    string stringy @calculatedFrom(""\n"") `line1
+    line2`,// c40
+    pack `100% of %d`,// c43
+}// c44")).
+Eval vm_compute in ("<<<M1876>>>" ++ check (runes_of_ascii "  packet 
+Logon
+
+{char[	0123456789
+]
+Pad`a\`,	match pack//	t
+
+as
+    As
+	{ [""1""
+
+    ,
+""a	b"",
+0, ""packet""]	// @lengthOf(
+  :
+u  ,
+7
+: asx
+, }	,
+@lengthOf(
+
+Logon
+	)
+match 
+A  as zchar  //
+	{
+10:o
+
+    , 
+}, 
+@leftPad
+    (  // " ++ [128512]%N ++ runes_of_ascii " emoji
+	'0' 
+) o
+
+    {
+repeat f32 Logon 
+, repeatCount @calculatedFrom(
+    ""\n""  ), 
+    // @lengthOf(
+	// `tick` ""quote"" 'q'
+	  }	,  }")).
+Eval vm_compute in ("<<<M231>>>" ++ check (runes_of_ascii "MetaData	Logon /// triple
+{
+char[255 ]
+// trailing space 
+// `tick` ""quote"" 'q'
+msg_type
+,
+    A msg_type , char[
+4294967296
+    ]u ,// 50% %s
+} root packet
+    /// triple
+    uint8x
+    { match _x as len
+    { 255
+    : a1 , 10
+    // a // b
+    : options1
+    } ,
+crc
+    // a // b
+    ,
+@lengthOf(
+Header ) repeat roots `say ""hi""`,
+//
+// c
+}
+")).
+Eval vm_compute in ("<<<M1396>>>" ++ check (runes_of_ascii "options {
+	LittleEndian
+= true ; 
+} 
+packet
+    Sub { u8 a
+
+    ,	@calculatedFrom(  ""CRC16""
+
+    )  uint64
+    SubSum  , 
+}
+    root
+	packet Frame  {
+	u16 MsgType
+    , u16
+BodyLen @lengthOf(
+	Body 
+)
+	,	Sub Body,string
+    note 
+,
+@calculatedFrom(""CRC16"" 
+)  uint64
+
+    Checksum,	u8
+
+    tail,
+}
+")).
+Eval vm_compute in ("<<<M1647>>>" ++ check (runes_of_ascii "packet a1 {
+    zchar[0] x `say ""hi""`,
+}
+
+packet BodyLength {
+    match Pad as A {
+        ""\n"" : len,
+    },
+}
+
+MetaData repeatCount {
+    string tag,
+}
+
+MetaData trueish {
+    u128 string_,
+    char[00] o,
+    string tag,
+}
+
+packet calculatedFrom {
+    BodyLength `tab	here`,
+}")).
+Eval vm_compute in ("<<<M402>>>" ++ check (runes_of_ascii "packet
+    asx { @calculatedFrom( @calculatedFrom(
+""""  ) @tag( 255 )repeat
+// packet A { u8 x, }
+// trailing space 
+int16 u8x
+,
+@tag(
+    //
+    007 )
+    @tag( 0
+    /// triple
+    ) @tag( 1) u
+    @lengthOf( T ),
+// `tick` ""quote"" 'q'
+//x
+} // " ++ [128512]%N ++ runes_of_ascii " emoji")).
+Eval vm_compute in ("<<<M422>>>" ++ check (runes_of_ascii "packet
+    asx { @calculatedFrom(
+""""  ) @tag( 255 255 )repeat
+// packet A { u8 x, }
+// trailing space 
+int16 u8x
+,
+@tag(
+    //
+    007 )
+    @tag( 0
+    /// triple
+    ) @tag( 1) u
+    @lengthOf( T ),
+// `tick` ""quote"" 'q'
+//x
+} // " ++ [128512]%N ++ runes_of_ascii " emoji")).
+Eval vm_compute in ("<<<M533>>>" ++ check (runes_of_ascii "packet
+    asx { @calculatedFrom(
+""""  ) @tag( 255 )repeat
+// packet A { u8 x, }
+// trailing space 
+int16 u8x
+,
+@tag(
+    //
+    007 )
+    @tag( 0
+    /// triple
+    ) @tag( 1) u
+    @lengthOf( T ),
+// `tick` ""quote"" 'q'
+//x
+}"" // " ++ [128512]%N ++ runes_of_ascii " emoji")).
+Eval vm_compute in ("<<<M483>>>" ++ check (runes_of_ascii "packet
+    asx { @calculatedFrom(
+""""  ) @tag( 255 )repeat
+// packet A { u8 x, }
+// trailing space 
+int16 u8x
+,
+@tag(
+    //
+    007 )
+    @tag( 0
+    /// triple
+    ) 1 @tag() u
+    @lengthOf( T ),
+// `tick` ""quote"" 'q'
+//x
+} // " ++ [128512]%N ++ runes_of_ascii " emoji")).
+Eval vm_compute in ("<<<M459>>>" ++ check (runes_of_ascii "packet
+    asx { @calculatedFrom(
+""""  ) @tag( 255 )repeat
+// packet A { u8 x, }
+// trailing space 
+int16 u8x
+,
+@tag(
+    //
+    [ )
+    @tag( 0
+    /// triple
+    ) @tag( 1) u
+    @lengthOf( T ),
+// `tick` ""quote"" 'q'
+//x
+} // " ++ [128512]%N ++ runes_of_ascii " emoji")).
+Eval vm_compute in ("<<<M1264>>>" ++ check (runes_of_ascii "packet Inner
+    // c1
+{ // c2a
+  // c2b
+u8 // c3
+a // c4
+,
+    // c5
+} // c6a
+  // c6b
+root // c7
+packet // c8
+P // c9
+{ repeat
+    // c11
+Inner items // c13a
+  // c13b
+, // c14a
+  // c14b
+u8 x
+    // c16
+, }
+    // c18
+")).
+Eval vm_compute in ("<<<M1826>>>" ++ check (runes_of_ascii "  root
+
+    packet Frame
+    {
+
+u8  K , 
+Logon 
+first 
+,
+	match	K as	Body	{1 
+: 
+Logon
+,
+
+2 :
+Logout 
+, }
+
+    , }
+packet Logon {
+string
+user ,	} packet  Logout {
+
+    u16
+reason,
+
+    } ")).
+Eval vm_compute in ("<<<M1744>>>" ++ check (runes_of_ascii "
+MetaData  u
+	{}
+    MetaData o{
+	float uint8x
+    `100% of %d` ,repeatCount
+u8x ,string_ leftPad ,i32 
+Foo 
+,
+    int64	x 
+`two '1'words` , calculatedFrom stringy
+    `a\` 
+, 
+} ")).
+Eval vm_compute in ("<<<M714>>>" ++ check (runes_of_ascii "packet
+crc
+int64 repeat  Foo A  `u8 x,` ,	@lengthOf( uint8x ) string
+matchKey @lengthOf( stringy ) `a\`
+,
+    // c
+    }
+MetaData chars{
+leftPad
+    //	t
+    crc
+`" ++ [233]%N ++ runes_of_ascii "`
+,}")).
+Eval vm_compute in ("<<<M562>>>" ++ check (runes_of_ascii "MetaData u
+    { } } MetaData o
+{ float uint8x
+`100% of %d` ,repeatCount u8x, string_ leftPad
+, i32
+    Foo , int64 x `two words` , calculatedFrom
+stringy `a\` ,
+}
+")).
+Eval vm_compute in ("<<<M1678>>>" ++ check (runes_of_ascii "MetaData o {
+}
+
+MetaData Header {
+    repeatCount matchKey,
+}
+
+packet As {
+    // c
+    @tag(0123456789)
+    char[] tag,
+    @calculatedFrom(""x y"")
+    crc `it's`,
+}")).
+Eval vm_compute in ("<<<M678>>>" ++ check (runes_of_ascii "MetaData u
+    { } MetaData o
+{ float uint8x
+`100% of %d` ,repeatCount u8x, string_ leftPad
+, i32
+    Foo , int64 x `two words` , calculatedFrom
+stringy , `a\`
+}
+")).
+Eval vm_compute in ("<<<M1312>>>" ++ check (runes_of_ascii "
+packet  A
+{	u8 a
+,
+	}  packet  B { u16
+	b,} root 
+packet
+	P
+{ u8
+
+K  ,
+match
+
+    K as M
+{[1 ,
+	2  ]
+: A
+
+,  3
+
+    :
+    B, 
+7  :
+A
+    ,  },
+
     }
 
 ")).
-Eval vm_compute in ("<<<M949>>>" ++ check (runes_of_ascii "MetaData M {
-    u8 x `x
-`,
-    T t `x
-`,
-}")).
-Eval vm_compute in ("<<<M1889>>>" ++ check (runes_of_ascii "options {
-    a = 1// c
-    b = 2;// d
-}")).
-Eval vm_compute in ("<<<M1186>>>" ++ check (runes_of_ascii "options {
-// c
-A = ""// no comment"" }")).
-Eval vm_compute in ("<<<M752>>>" ++ check (runes_of_ascii "K""kF<NCf7hLi{m{6<\cF\H9]3_e'\jS3a")).
-Eval vm_compute in ("<<<M1022>>>" ++ check (runes_of_ascii "packet A {
- u8 x `d" ++ [8192]%N ++ runes_of_ascii "`, // c" ++ [8192]%N ++ runes_of_ascii "
-}")).
-Eval vm_compute in ("<<<M945>>>" ++ check (runes_of_ascii "packet A {
-    u8 x `x
-`,
-}")).
-Eval vm_compute in ("<<<M289>>>" ++ check (runes_of_ascii "// `tick` ""quote"" 'q'
-
+Eval vm_compute in ("<<<M659>>>" ++ check (runes_of_ascii "MetaData u
+    { } MetaData o
+{ float uint8x
+`100% of %d` ,repeatCount u8x, string_ leftPad
+, i32
+    Foo , int64 x } , calculatedFrom
+stringy `a\` ,
+}
 ")).
-Eval vm_compute in ("<<<M1128>>>" ++ check (runes_of_ascii "MetaData tag { // c
+Eval vm_compute in ("<<<M675>>>" ++ check (runes_of_ascii "MetaData u
+    { } MetaData o
+{ float uint8x
+`100% of %d` ,repeatCount u8x, string_ leftPad
+, i32
+    Foo , int64 x `two words` , calculatedFrom")).
+Eval vm_compute in ("<<<M1635>>>" ++ check (runes_of_ascii "packet A {
+    B b `a
+            b
+          c`,
+    B `a
+            b
+          c`,
+    repeat B bs `a
+            b
+          c`,
 }")).
-Eval vm_compute in ("<<<M1026>>>" ++ check (runes_of_ascii "// c" ++ [8202]%N ++ runes_of_ascii "
-packet A {
+Eval vm_compute in ("<<<M281>>>" ++ check (runes_of_ascii "packet lengthOf{
+len charz `it's`, }options
+{ } packet metadata {string Pad @calculatedFrom( """ ++ [128512]%N ++ runes_of_ascii """)
+    `crlf
+line` , } // " ++ [128512]%N ++ runes_of_ascii " emoji")).
+Eval vm_compute in ("<<<M460>>>" ++ check (runes_of_ascii "packet
+    asx { @calculatedFrom(
+""""  ) @tag( 255 )repeat
+// packet A { u8 x, }
+// trailing space 
+int16 u8x
+,
+@tag(")).
+Eval vm_compute in ("<<<M1208>>>" ++ check (runes_of_ascii "options { }
+// c
+options { MetaDataX = char ; } MetaData Pad { i8 metadata , string stringy , int8 As `{ , }` , }")).
+Eval vm_compute in ("<<<M1240>>>" ++ check (runes_of_ascii "options { } options { MetaDataX = char ; } MetaData Pad { i8 metadata , string stringy ,
+// c
+int8 As `{ , }` , }")).
+Eval vm_compute in ("<<<M917>>>" ++ check (runes_of_ascii "packet A {
+    u16 len @lengthOf(body) `a
+b`,
+    u32 crc @calculatedFrom(""CRC32"") `a
+b`,
+    string body,
 }")).
-Eval vm_compute in ("<<<M1008>>>" ++ check (runes_of_ascii "packet A {
-}// c" ++ [133]%N)).
+Eval vm_compute in ("<<<M1707>>>" ++ check (runes_of_ascii "  packet orderItem  { 
+u8
+a,}
+
+    root
+packet
+
+    newOrder  {
+orderItem
+,
+    u8
+	x
+
+    , } ")).
+Eval vm_compute in ("<<<M1547>>>" ++ check (runes_of_ascii "  packet
+
+A {	match
+
+k
+as
+n {	[ 
+1	,""bb"", 007
+
+    , 
+""d"" ,	5,""f""
+    ]  :B
+    2:  C
+} , }
+")).
+Eval vm_compute in ("<<<M1778>>>" ++ check (runes_of_ascii "  packet
+A
+
+{
+
+    B b `a
+    b
+  c` 
+,
+	B  `a
+    b
+  c` 
+,repeat 
+B bs	`a
+    b
+  c`
+, }
+")).
+Eval vm_compute in ("<<<M847>>>" ++ check (runes_of_ascii "packet A {
+  match k as n {
+    [""a"", ""bb"", 007, ""d"", ""e"", 66, ""g""] : B,
+    2 : C
+  },
+}")).
+Eval vm_compute in ("<<<M1599>>>" ++ check (runes_of_ascii "packet A {
+    match k as n {
+        [""a"", ""bb"", ""c c""] : B,
+        2 : C,
+    },
+}")).
+Eval vm_compute in ("<<<M45>>>" ++ check (runes_of_ascii "root packet
+// a // b
+/// triple
+msg_type{ uint64 matchKey@lengthOf(
+    _x ), }
+")).
+Eval vm_compute in ("<<<M1790>>>" ++ check (runes_of_ascii "
+packet
+
+A {
+match
+
+k
+
+    as n
+{ [
+    1
+, 22	,  007
+]:
+	B	2 :
+	C } 
+,}
+")).
+Eval vm_compute in ("<<<M804>>>" ++ check (runes_of_ascii "packet A {
+  match k as n {
+    [""a"", 22, ""c c"", 4] : B,
+    2 : C
+  },
+}")).
+Eval vm_compute in ("<<<M792>>>" ++ check (runes_of_ascii "packet A {
+  match k as n {
+    [""a"", 22, ""c c""] : B
+    2 : C
+  },
+}")).
+Eval vm_compute in ("<<<M1972>>>" ++ check (runes_of_ascii "root packet P {
+    u8 s_u8,
+    repeat u8 r_u8,
+    u16 b_len,
+}")).
+Eval vm_compute in ("<<<M1739>>>" ++ check (runes_of_ascii "  packet
+A
+	{match k
+as  n {[ 
+1	, ""bb""
+
+]: B
+	2 :
+C }	,}")).
+Eval vm_compute in ("<<<M1138>>>" ++ check (runes_of_ascii "// top
+root // c0
+packet // c1
+a1 // c2
+{ // c3
+} // c4
+")).
+Eval vm_compute in ("<<<M1092>>>" ++ check (runes_of_ascii "packet A {} packet B {} MetaData M {} options {}")).
+Eval vm_compute in ("<<<M990>>>" ++ check (runes_of_ascii "options {
+    a = ""%d%s"";
+    b = ""%d%s""
+}")).
+Eval vm_compute in ("<<<M1086>>>" ++ check (runes_of_ascii "packet A {    u8 x, // c    u8 y,}")).
+Eval vm_compute in ("<<<M1191>>>" ++ check (runes_of_ascii "options { A = ""// no comment"" // c
+}")).
+Eval vm_compute in ("<<<M752>>>" ++ check (runes_of_ascii "K""kF<NCf7hLi{m{6<\cF\H9]3_e'\jS3a")).
+Eval vm_compute in ("<<<M975>>>" ++ check (runes_of_ascii "packet A {
+    u8 x `%%d%!`,
+}")).
+Eval vm_compute in ("<<<M770>>>" ++ check (runes_of_ascii "match char[ false @lengthOf(")).
+Eval vm_compute in ("<<<M1151>>>" ++ check (runes_of_ascii "root packet a1 { } // c
+")).
+Eval vm_compute in ("<<<M1124>>>" ++ check (runes_of_ascii "MetaData // c
+tag { }")).
+Eval vm_compute in ("<<<M1025>>>" ++ check (runes_of_ascii "packet A {
+}
+// c" ++ [8202]%N)).
+Eval vm_compute in ("<<<M998>>>" ++ check (runes_of_ascii "packet A {
+}// c" ++ [12288]%N)).
 Eval vm_compute in ("<<<M763>>>" ++ check (runes_of_ascii "qGUQn" ++ [65533; 65533]%N ++ runes_of_ascii "_O" ++ [65533; 65533]%N ++ runes_of_ascii "}3" ++ [65533]%N ++ runes_of_ascii "I")).
-Eval vm_compute in ("<<<M994>>>" ++ check (runes_of_ascii "// c ")).
-Eval vm_compute in ("<<<M733>>>" ++ check ([0]%N)).
+Eval vm_compute in ("<<<M1059>>>" ++ check (runes_of_ascii "// c 	")).
+Eval vm_compute in ("<<<M1619>>>" ++ check (runes_of_ascii "  ")).
